@@ -374,13 +374,28 @@ class _Expr(ast.NodeTransformer):
             pass
         return node
 
+    COMPAT = {"xmap": "map", "xzip": "zip", "xrange": "range", "xfilter": "filter"}
+
+    def visit_Name(self, node):
+        if isinstance(node.ctx, ast.Load) and node.id in self.COMPAT:
+            return ast.Name(id=self.COMPAT[node.id], ctx=ast.Load())
+        return node
+
     def visit_Call(self, node):
         self.generic_visit(node)
+        # starmap(f, zip(A, B, ..))  ==  map(f, A, B, ..)
+        if ast.unparse(node.func) in ("it.starmap", "starmap", "itertools.starmap") and len(node.args) == 2 \
+                and not node.keywords and isinstance(node.args[1], ast.Call) and isinstance(node.args[1].func, ast.Name) \
+                and node.args[1].func.id == "zip" and not node.args[1].keywords and node.args[1].args:
+            return ast.Call(func=ast.Name(id="map", ctx=ast.Load()), args=[node.args[0]] + list(node.args[1].args), keywords=[])
         if isinstance(node.func, ast.Lambda):
             from .inline import beta_reduce
             red = beta_reduce(node)
             if red is not node:
                 return self.visit(red)
+        if isinstance(node.func, ast.Name) and node.func.id == "list" and len(node.args) == 1 and not node.keywords \
+                and isinstance(node.args[0], ast.GeneratorExp):
+            return self.visit(ast.ListComp(elt=node.args[0].elt, generators=node.args[0].generators))
         if isinstance(node.func, ast.Name) and node.func.id == "getattr" and len(node.args) == 2 and not node.keywords \
                 and isinstance(node.args[1], ast.Constant) and isinstance(node.args[1].value, str) \
                 and node.args[1].value.isidentifier():
@@ -398,6 +413,14 @@ class _Expr(ast.NodeTransformer):
                 and [x.arg for x in a.args] == [x.id if isinstance(x, ast.Name) else None for x in node.body.args] \
                 and node.body.func.id not in [x.arg for x in a.args]:
             return node.body.func
+        return node
+
+    def visit_Assign(self, node):
+        self.generic_visit(node)
+        # x[a:b] = (generator)  ==  x[a:b] = [list]: a slice assignment materialises its right-hand side first
+        if len(node.targets) == 1 and isinstance(node.targets[0], ast.Subscript) and isinstance(node.targets[0].slice, ast.Slice) \
+                and isinstance(node.value, ast.GeneratorExp):
+            node.value = self.visit(ast.ListComp(elt=node.value.elt, generators=node.value.generators))
         return node
 
     def visit_ListComp(self, node):
@@ -511,6 +534,9 @@ def _loaded_first(node, v):
             return
         if isinstance(n, (ast.GeneratorExp, ast.ListComp, ast.SetComp, ast.DictComp)):
             ev(n.generators[0].iter)
+            effect()
+        if isinstance(n, (ast.Yield, ast.YieldFrom, ast.Await)):
+            ev(n.value)
             effect()
         if isinstance(n, (ast.Expr, ast.Return)):
             ev(n.value)
@@ -681,6 +707,20 @@ def _norm_simple(stmts, ctx):
                 st.body = [ast.Assign(targets=[ast.Name(id=t, ctx=ast.Store())], value=call, lineno=st.lineno, col_offset=0)] \
                     + list(st.body)
                 changed = True
+            # for T in (ELT for C in S): BODY   ->   for C in S: T = ELT; BODY
+            if isinstance(st, ast.For) and isinstance(st.iter, ast.GeneratorExp) and len(st.iter.generators) == 1 \
+                    and not st.iter.generators[0].ifs and isinstance(st.target, ast.Name) and not ctx.get("final") \
+                    and isinstance(st.iter.generators[0].target, ast.Name):
+                g = st.iter.generators[0]
+                cvar = g.target.id
+                body_names = {n.id for b_ in st.body for n in ast.walk(b_) if isinstance(n, ast.Name)}
+                if cvar not in body_names and cvar != st.target.id:
+                    asg = ast.Assign(targets=[ast.Name(id=st.target.id, ctx=ast.Store())], value=st.iter.elt,
+                                     lineno=st.lineno, col_offset=0)
+                    st.target = ast.Name(id=cvar, ctx=ast.Store())
+                    st.iter = g.iter
+                    st.body = [asg] + list(st.body)
+                    changed = True
             # L = []; for x in S: L.append(E)   ->   L = [E for x in S]
             if isinstance(st, ast.Assign) and len(st.targets) == 1 and isinstance(st.targets[0], ast.Name) \
                     and isinstance(st.value, ast.List) and not st.value.elts and isinstance(nxt, ast.For) \
@@ -731,6 +771,25 @@ def _norm_simple(stmts, ctx):
                 changed = True
                 i += 2
                 continue
+            # for _ in X: pass   ->   deque(X, maxlen=0)        (consume, keep nothing)
+            if isinstance(st, ast.For) and not st.orelse and all(isinstance(b_, ast.Pass) for b_ in st.body) \
+                    and isinstance(st.target, ast.Name) and not ctx.get("final") \
+                    and not any(_count_loads(s_, st.target.id) for s_ in stmts[i + 1:]):
+                out.append(ast.Expr(value=ast.Call(func=ast.Name(id="deque", ctx=ast.Load()), args=[st.iter],
+                                                   keywords=[ast.keyword(arg="maxlen", value=ast.Constant(value=0))]),
+                                    lineno=st.lineno, col_offset=0))
+                changed = True
+                i += 1
+                continue
+            # del x[:]   ->   x[:] = []
+            if isinstance(st, ast.Delete) and len(st.targets) == 1 and isinstance(st.targets[0], ast.Subscript) \
+                    and isinstance(st.targets[0].slice, ast.Slice) and st.targets[0].slice.lower is None \
+                    and st.targets[0].slice.upper is None and st.targets[0].slice.step is None:
+                t = ast.Subscript(value=st.targets[0].value, slice=st.targets[0].slice, ctx=ast.Store())
+                out.append(ast.Assign(targets=[t], value=ast.List(elts=[], ctx=ast.Load()), lineno=st.lineno, col_offset=0))
+                changed = True
+                i += 1
+                continue
             # x /= y  ->  x = x / y     (no class of the package defines an in-place division)
             if isinstance(st, ast.AugAssign) and isinstance(st.op, ast.Div) and isinstance(st.target, ast.Name) \
                     and not ctx.get("final"):
@@ -766,6 +825,16 @@ def _norm_simple(stmts, ctx):
                         used_later = used_later or not (tot_l == 1 and tot_s == 1)
                 uses_next = _count_loads(nxt, v)
                 stores_next = v in _stored_names(nxt)
+                if not used_later and uses_next == 2 and not stores_next and isinstance(nxt, ast.If) and nxt.orelse \
+                        and _total_atom(nxt.test) and nxt.body and _count_loads(nxt.body[0], v) == 1 \
+                        and _count_loads(nxt.orelse[0], v) == 1 and _count_loads(nxt.test, v) == 0 \
+                        and _loaded_first(nxt.body[0], v) and _loaded_first(nxt.orelse[0], v) and ctx.get("root") is not None \
+                        and sum(1 for n in ast.walk(ctx["root"]) if isinstance(n, ast.Name) and n.id == v) == 3:
+                    nxt.body[0] = _Subst({v: st.value}).visit(nxt.body[0])
+                    nxt.orelse[0] = _Subst({v: st.value}).visit(nxt.orelse[0])
+                    changed = True
+                    i += 1
+                    continue
                 if not used_later and uses_next == 1 and not stores_next:
                     first = _loaded_first(nxt, v)
                     pure = _simple_arg(st.value) and not isinstance(nxt, (ast.For, ast.While, ast.If, ast.Try, ast.With) + FuncTypes)
@@ -1507,6 +1576,96 @@ def _inline_all(f, helpers, methods):
     return f
 
 
+def _gen_defs_to_genexps(fn):
+    """def g(p): for T in p: yield E   ...   g(iter(X))      ->      (E for T in X)
+    (both call iter(X) on the spot and evaluate E lazily in the enclosing scope)"""
+    for scope in [n for n in ast.walk(fn) if isinstance(n, FuncTypes)]:
+        for blk in _all_blocks(scope):
+            for st in list(blk):
+                if not (isinstance(st, FuncTypes) and not st.decorator_list and len(st.args.args) == 1
+                        and not st.args.vararg and not st.args.kwarg and not st.args.defaults):
+                    continue
+                body = docstring_free(st.body)
+                if len(body) == 1 and isinstance(body[0], ast.For) and len(body[0].body) > 1:
+                    try:
+                        body[0].body = _norm_simple(list(body[0].body), {"root": st}) or body[0].body
+                    except Exception:
+                        pass
+                if not (len(body) == 1 and isinstance(body[0], ast.For) and not body[0].orelse
+                        and isinstance(body[0].iter, ast.Name) and body[0].iter.id == st.args.args[0].arg
+                        and len(body[0].body) == 1 and isinstance(body[0].body[0], ast.Expr)
+                        and isinstance(body[0].body[0].value, ast.Yield) and body[0].body[0].value.value is not None):
+                    continue
+                loop = body[0]
+                p = st.args.args[0].arg
+                if any(isinstance(n, ast.Name) and n.id == p for n in ast.walk(loop.body[0])):
+                    continue
+                calls = [n for n in ast.walk(scope) if isinstance(n, ast.Call) and isinstance(n.func, ast.Name)
+                         and n.func.id == st.name]
+                loads = [n for n in ast.walk(scope) if isinstance(n, ast.Name) and n.id == st.name and isinstance(n.ctx, ast.Load)]
+                if not calls or len(calls) != len(loads):
+                    continue
+                if not all(len(c.args) == 1 and not c.keywords and isinstance(c.args[0], ast.Call)
+                           and isinstance(c.args[0].func, ast.Name) and c.args[0].func.id == "iter" and len(c.args[0].args) == 1
+                           for c in calls):
+                    continue
+                # other definitions of the same name in the scope (if/else arms) are handled one by one: the call sites
+                # must be reached by exactly this definition - accepted when the definition is the only one of that name
+                # in its block chain up to the call
+                same = [n for n in ast.walk(scope) if isinstance(n, FuncTypes) and n.name == st.name]
+                rebound = [n for n in ast.walk(scope) if isinstance(n, ast.Name) and n.id == st.name
+                           and isinstance(n.ctx, (ast.Store, ast.Del))]
+                after = blk[blk.index(st) + 1:]
+                dominated = all(any(c is x for s_ in after for x in ast.walk(s_)) for c in calls)
+                if len(same) != 1 or rebound or not dominated:
+                    # several arms define the name: each definition becomes ``name = lambda src: (E for T in src)``
+                    # (a generator function fed an iterator and a generator expression over it behave alike)
+                    gen = ast.GeneratorExp(elt=ast.parse(ast.unparse(loop.body[0].value.value), mode="eval").body,
+                                           generators=[ast.comprehension(
+                                               target=ast.parse(ast.unparse(loop.target) + " = 0").body[0].targets[0],
+                                               iter=ast.Name(id=p, ctx=ast.Load()), ifs=[], is_async=0)])
+                    lam = ast.Lambda(args=ast.arguments(posonlyargs=[], args=[ast.arg(arg=p)], vararg=None, kwonlyargs=[],
+                                                        kw_defaults=[], kwarg=None, defaults=[]), body=gen)
+                    blk[blk.index(st)] = ast.Assign(targets=[ast.Name(id=st.name, ctx=ast.Store())], value=lam,
+                                                    lineno=st.lineno, col_offset=0)
+                    continue
+                elt_src = ast.unparse(loop.body[0].value.value)
+                tgt_src = ast.unparse(loop.target)
+                ids = {id(c) for c in calls}
+
+                class _Rep(ast.NodeTransformer):
+                    def visit_Call(self, node):
+                        self.generic_visit(node)
+                        if id(node) in ids:
+                            return ast.GeneratorExp(
+                                elt=ast.parse(elt_src, mode="eval").body,
+                                generators=[ast.comprehension(target=ast.parse(tgt_src + " = 0").body[0].targets[0],
+                                                              iter=node.args[0].args[0], ifs=[], is_async=0)])
+                        return node
+                blk.remove(st)
+                for i_, s_ in enumerate(scope.body):
+                    scope.body[i_] = _Rep().visit(s_)
+    return fn
+
+
+def _all_blocks(scope):
+    out = [scope.body]
+    stack = list(scope.body)
+    while stack:
+        st = stack.pop()
+        if isinstance(st, FuncTypes + (ast.ClassDef,)):
+            continue
+        for fld in ("body", "orelse", "finalbody"):
+            b = getattr(st, fld, None)
+            if isinstance(b, list) and b and isinstance(b[0], ast.stmt):
+                out.append(b)
+                stack.extend(b)
+        for h in getattr(st, "handlers", []) or []:
+            out.append(h.body)
+            stack.extend(h.body)
+    return out
+
+
 def canonical(fn, helpers, methods=None, hier=None):
     """Canonical dump of a function modulo the rewrites above."""
     return ast.dump(canonical_ast(fn, helpers, methods, hier), annotate_fields=False, include_attributes=False)
@@ -1539,8 +1698,32 @@ def canonical_ast(fn, helpers, methods=None, hier=None, segment=False):
             break
 
     class _Beta(ast.NodeTransformer):
+        def visit_GeneratorExp(self, node):
+            self.generic_visit(node)
+            it0 = node.generators[0].iter
+            if isinstance(it0, ast.Call) and isinstance(it0.func, ast.Name) and it0.func.id == "iter" and len(it0.args) == 1 \
+                    and not it0.keywords:
+                node.generators[0].iter = it0.args[0]      # a generator expression calls iter() on it anyway
+            return node
+
         def visit_Call(self, node):
             self.generic_visit(node)
+            if isinstance(node.func, ast.Name) and node.func.id in ("map", "xmap") and len(node.args) == 2 and not node.keywords \
+                    and isinstance(node.args[0], (ast.Name, ast.Attribute, ast.Lambda)) \
+                    and not isinstance(node.args[1], ast.Starred):
+                # map(f, X) and (f(c) for c in X) are the same lazy iteration (both call iter(X) on the spot)
+                _Beta.k = getattr(_Beta, "k", 0) + 1
+                var = "m__%d" % _Beta.k
+                elt = ast.Call(func=node.args[0], args=[ast.Name(id=var, ctx=ast.Load())], keywords=[])
+                return self.visit(ast.GeneratorExp(elt=elt, generators=[ast.comprehension(
+                    target=ast.Name(id=var, ctx=ast.Store()), iter=node.args[1], ifs=[], is_async=0)]))
+            if isinstance(node.func, ast.IfExp) and isinstance(node.func.body, ast.Lambda) \
+                    and isinstance(node.func.orelse, ast.Lambda):
+                # (A if c else B)(args): the test is evaluated first either way
+                mk = lambda fnode: self.visit(ast.Call(func=fnode, args=[ast.parse(ast.unparse(a_), mode="eval").body
+                                                                        for a_ in node.args], keywords=[]))
+                if not node.keywords:
+                    return ast.IfExp(test=node.func.test, body=mk(node.func.body), orelse=mk(node.func.orelse))
             if isinstance(node.func, ast.Lambda):
                 from .inline import beta_reduce
                 red = beta_reduce(node)
@@ -1548,6 +1731,7 @@ def canonical_ast(fn, helpers, methods=None, hier=None, segment=False):
                     return self.visit(red)
             return node
     f = _Beta().visit(f)
+    _gen_defs_to_genexps(f)
     ast.fix_missing_locations(f)
     f.body = docstring_free(f.body)
     _ssa_toplevel(f)
@@ -1568,6 +1752,8 @@ def canonical_ast(fn, helpers, methods=None, hier=None, segment=False):
         for _ in range(4):
             if not _propagate_pure(f):
                 break
+        f = _Beta().visit(f)
+        ast.fix_missing_locations(f)
         if ast.dump(f) == before:
             break
     bound = frozenset(_bound(f))
